@@ -29,9 +29,12 @@ const week = 7 * 24 * 3600 * sec
 // 7-day shard-group boundary (groups are epoch aligned), so that clusters straddle two shards.
 const baseT = 2900*week - 120*sec
 
-func genDataset(r *gen.Rand, name string) *Dataset {
-	ds := &Dataset{Name: name}
+func genDataset(r *gen.Rand, name string, wide bool) *Dataset {
+	ds := &Dataset{Name: name, Wide: wide}
 	nser := r.Range(3, 7)
+	if wide {
+		nser = r.Range(6, 12)
+	}
 	seen := map[string]bool{}
 	span := int64(r.Range(20, 90)) // grid of seconds
 	twoClusters := r.Chance(1, 3)
@@ -53,6 +56,9 @@ func genDataset(r *gen.Rand, name string) *Dataset {
 		}
 		has[r.Intn(3)] = true
 		nrows := r.Range(4, 26)
+		if wide {
+			nrows = r.Range(2, 6) // few rows per series: the first rows of the merged stream come from many series
+		}
 		ts := map[int64]bool{}
 		for i := 0; i < nrows; i++ {
 			t := baseT + int64(r.Intn(int(span)))*sec
@@ -270,9 +276,28 @@ func genGroup(r *gen.Rand) []int {
 	}
 }
 
+// genStarLimit: SELECT * [WHERE time/tag tests] LIMIT n OFFSET m over all series (the store prunes series for such
+// queries, see engine/iterators.go itrsInitWithLimit).
+func genStarLimit(r *gen.Rand, ds *Dataset) *Query {
+	lo, hi := dsRange(ds)
+	q := &Query{Kind: "plain", Star: true, Cols: []int{0, 1, 2, 3, 4}, Group: []int{}, Fill: "none", Pred: &Pred{Op: "true"}}
+	if r.Chance(1, 3) {
+		q.HasTmin, q.Tmin = true, lo+int64(r.Intn(int((hi-lo)/sec)+1))*sec
+	}
+	if r.Chance(1, 4) {
+		q.Pred = genTagAtom(r)
+	}
+	q.Limit = int64(r.Range(1, 3))
+	q.Offset = int64(r.Range(0, 5))
+	return q
+}
+
 // genQuery draws a query of the supported core. Desc is left false: every query is run in both orders.
 func genQuery(r *gen.Rand, ds *Dataset) *Query {
 	lo, hi := dsRange(ds)
+	if (ds.Wide && r.Chance(1, 2)) || r.Chance(1, 12) {
+		return genStarLimit(r, ds)
+	}
 	q := &Query{Group: []int{}, Fill: "none"}
 	pickBound := func() int64 {
 		t := lo + int64(r.Intn(int((hi-lo)/sec)+1))*sec
@@ -418,7 +443,9 @@ func renderPred(p *Pred) string {
 
 func renderSQL(q *Query) string {
 	var sel []string
-	if q.Kind == "plain" {
+	if q.Star {
+		sel = []string{"*"}
+	} else if q.Kind == "plain" {
 		for _, f := range q.Cols {
 			sel = append(sel, fieldNames[f])
 		}
